@@ -71,3 +71,10 @@ Theorem C09_isimip_step4_lower_values : forall lb lt us vals, lb <= lt -> Forall
   (lt < nth i vals 0 -> nth i (step4_lower lb lt us vals) 0 = nth i vals 0).
 Proof. exact isimip_step4_lower_values. Qed.
 Print Assumptions C09_isimip_step4_lower_values.
+
+(** CDFt SSR randomisation of zeros (REGENERATED): never reorders two values, whatever the draws, given the SSR
+    threshold does not exceed any positive value (C10_ssr_threshold_is_smallest_positive) *)
+Theorem C09_cdft_ssr_never_reorders : forall thr x y ux uy : Q, 0 <= x -> x < y -> thr <= y -> 0 <= ux -> ux < 1 -> 0 < thr ->
+  cdft_randomize_zero x thr ux <= cdft_randomize_zero y thr uy.
+Proof. exact ssr_never_reorders. Qed.
+Print Assumptions C09_cdft_ssr_never_reorders.
